@@ -111,11 +111,13 @@ func checkC13(p *Prog, r *Report) {
 	r.rule("C13.W5d", "a Read that consumed data passes the read token on before returning whenever data remains readable (len(bufptr) > 0 or PeekSize() > 0)", 3)
 	r.rule("C13.W6", "die is closed only inside dieOnce.Do; a second Close returns an error; socket errors are stored before their channel is closed", 5)
 	r.rule("C13.W7", "Read tests buffered data before blocking on a select that contains die; WriteBuffers passes a non-blocking die/error test before every kcp.Send", 2)
+	r.rule("C13.W11", "every transmit function reports a failed socket write: from err != nil of WriteTo/WriteBatch every path calls notifyWriteError, or the error is returned and no caller discards it", 2)
 	r.rule("C13.W10", "a deadline change reaches every goroutine blocked on that deadline: the wake-up is a broadcast (close of a channel), or a caller woken through the one-slot event channel passes the token on before it blocks again without having made progress", 0)
 	r.rule("C13.W9", "every receive loop reports a failed socket read: from err != nil every path to the return calls notifyReadError of the loop's owner (sessions may skip it only when the session itself is closed); the listener's notifyReadError propagates to every session it owns", 3)
 	r.rule("C13.W8", "every send on an event channel is non-blocking (select with default)", 2)
 
 	checkReadErrorReporting(p, r)
+	checkWriteErrorReporting(p, r)
 
 	// ---- wait functions
 	var waits []*waitFunc
@@ -970,6 +972,34 @@ func checkCloseBroadcast(p *Prog, r *Report) {
 					}
 				}
 			}
+			if !inOnce && fi.Lit == nil && fi.Obj != nil {
+				// a method whose only use in the package is as the method value handed to <onceField>.Do
+				uses, okUses := 0, 0
+				for _, f := range p.Files {
+					ast.Inspect(f, func(x ast.Node) bool {
+						id, isId := x.(*ast.Ident)
+						if !isId || p.Info.Uses[id] != fi.Obj {
+							return true
+						}
+						uses++
+						sel, _ := p.parents[id].(*ast.SelectorExpr)
+						if sel == nil {
+							return true
+						}
+						if pc, isC := p.parents[sel].(*ast.CallExpr); isC && pc.Fun != ast.Expr(sel) {
+							if f2 := p.Callee(pc); f2 != nil && isExtFunc(f2, "sync", "Once", "Do") {
+								if s2, isS := ast.Unparen(pc.Fun).(*ast.SelectorExpr); isS {
+									if ot := p.Term(s2.X); ot.Op == "fld" && ot.Obj.Name() == onceField {
+										okUses++
+									}
+								}
+							}
+						}
+						return true
+					})
+				}
+				inOnce = uses > 0 && uses == okUses
+			}
 			if !inOnce {
 				r.bad("C13.W6", rootFuncInfo(fi).Name, p.Pos(call), construct, "the channel is closed outside "+onceField+".Do (a second close panics / the broadcast is not once-only)", "")
 				return true
@@ -1454,4 +1484,144 @@ func (p *Prog) singleTokenWake(w *waitFunc, ev *types.Var, notif map[*types.Func
 		return "the deadline change is announced through the one-slot event channel " + ev.Name() + ": with several goroutines blocked in " + w.fi.Name + " exactly one receives the token, re-reads the deadline and (having nothing to do) blocks again without passing the token on — the others keep waiting with the old deadline (or none) and do not time out"
 	}
 	return ""
+}
+
+// checkWriteErrorReporting: C13.W11.
+func checkWriteErrorReporting(p *Prog, r *Report) {
+	notify := p.Method("UDPSession", "notifyWriteError")
+	n := 0
+	var returning []*FuncInfo // transmit functions that hand the error to their caller instead
+	for _, fi := range p.funcs {
+		if fi.Lit != nil || fi.Body == nil || fi.Obj == nil || recvTypeName(fi.Obj) != "UDPSession" {
+			continue
+		}
+		c := p.CFG(fi)
+		var errVars []*types.Var
+		ast.Inspect(fi.Body, func(x ast.Node) bool {
+			as, ok := x.(*ast.AssignStmt)
+			if !ok || len(as.Rhs) != 1 {
+				return true
+			}
+			call, ok := ast.Unparen(as.Rhs[0]).(*ast.CallExpr)
+			if !ok {
+				return true
+			}
+			sel, ok := ast.Unparen(call.Fun).(*ast.SelectorExpr)
+			if !ok || (sel.Sel.Name != "WriteTo" && sel.Sel.Name != "WriteBatch") {
+				return true
+			}
+			if id, ok := as.Lhs[len(as.Lhs)-1].(*ast.Ident); ok {
+				if v, ok := p.Info.Defs[id].(*types.Var); ok {
+					errVars = append(errVars, v)
+				} else if v, ok := p.Info.Uses[id].(*types.Var); ok {
+					errVars = append(errVars, v)
+				}
+			}
+			return true
+		})
+		for _, ev := range errVars {
+			for _, b := range c.live {
+				ct := c.CondTerm(b)
+				if ct == nil || len(b.Succs) != 2 || ct.Key() != ne(tVar(ev), mk("nil")).Key() {
+					continue
+				}
+				n++
+				returnsErr := false
+				// what carries the error: the variable and anything assigned from it
+				taint := map[*types.Var]bool{ev: true}
+				for i := 0; i < 3; i++ {
+					ast.Inspect(fi.Body, func(x ast.Node) bool {
+						as, ok := x.(*ast.AssignStmt)
+						if !ok || len(as.Lhs) != len(as.Rhs) {
+							return true
+						}
+						for k, l := range as.Lhs {
+							if id, ok := l.(*ast.Ident); ok && mentionsVars(p, as.Rhs[k], taint) {
+								if v, ok := p.Info.Uses[id].(*types.Var); ok {
+									taint[v] = true
+								} else if v, ok := p.Info.Defs[id].(*types.Var); ok {
+									taint[v] = true
+								}
+							}
+						}
+						return true
+					})
+				}
+				// a tainted variable returned at the end of the function also carries it out
+				carriedOut := false
+				ast.Inspect(fi.Body, func(x ast.Node) bool {
+					if rs, ok := x.(*ast.ReturnStmt); ok {
+						for _, e := range rs.Results {
+							if mentionsVars(p, e, taint) {
+								carriedOut = true
+							}
+						}
+					}
+					return true
+				})
+				res := c.FindPath(PathQuery{From: Point{b.Succs[0], 0}, ExitIsTarget: true, IsBarrier: func(nd ast.Node, _ Point) bool {
+					if carriedOut {
+						// the error is stored into a variable that the function returns
+						if as, ok := nd.(*ast.AssignStmt); ok && len(as.Lhs) == len(as.Rhs) {
+							for k, l := range as.Lhs {
+								if id, ok := l.(*ast.Ident); ok && mentionsVars(p, as.Rhs[k], map[*types.Var]bool{ev: true}) {
+									if v, ok := p.Info.Uses[id].(*types.Var); ok && taint[v] && v != ev {
+										returnsErr = true
+										return true
+									}
+								}
+							}
+						}
+					}
+					f := false
+					inspectShallow(nd, func(x ast.Node) bool {
+						if call, ok := x.(*ast.CallExpr); ok && p.Callee(call) == notify {
+							f = true
+						}
+						return true
+					})
+					if rs, ok := nd.(*ast.ReturnStmt); ok {
+						for _, e := range rs.Results {
+							if mentionsVars(p, e, map[*types.Var]bool{ev: true}) {
+								f = true
+								returnsErr = true
+							}
+						}
+					}
+					return f
+				}})
+				construct := "failed socket write in " + fi.Name
+				if res.Found {
+					r.bad("C13.W11", fi.Name, p.Pos(b.Nodes[len(b.Nodes)-1]), construct, "a path after a failed write neither calls notifyWriteError nor returns the error: a Write blocked on a full window (and every later Write) never learns that the socket is dead", c.DescribePath(res.Path))
+				} else {
+					r.ok("C13.W11", fi.Name, p.Pos(b.Nodes[len(b.Nodes)-1]), construct, "every path from err != nil reports the error")
+					if returnsErr {
+						returning = append(returning, fi)
+					}
+				}
+			}
+		}
+	}
+	for _, fi := range returning {
+		for _, s := range p.CallsTo(fi.Obj) {
+			// the result must not be discarded: the call is not an expression statement, and what it is bound to reaches notifyWriteError
+			_, discarded := p.parents[s.Call].(*ast.ExprStmt)
+			okUse := !discarded
+			if okUse {
+				cfi := rootFuncInfo(s.Fn)
+				uses := false
+				ast.Inspect(cfi.Body, func(x ast.Node) bool {
+					if call, ok := x.(*ast.CallExpr); ok && p.Callee(call) == notify {
+						uses = true
+					}
+					return true
+				})
+				okUse = uses
+			}
+			r.check(okUse, "C13.W11", s.Fn.Name, p.Pos(s.Call), "error returned by "+fi.Name+" in "+s.Fn.Name, "handed to notifyWriteError", "the write error returned by "+fi.Name+" is dropped by this caller: blocked writers are never woken")
+		}
+	}
+	if n == 0 {
+		r.bad("C13.W11", "transmit functions", "-", "failed socket write", "no transmit function with an error test found", "")
+	}
 }
